@@ -21,8 +21,14 @@ RULE = ("kinds: 'init' (exact regime: dyadic meshes 1-4 dims with 0-3 aligned, p
         "on a coarser/finer/shifted mesh) -> the constructor (array AND labels), 14-20 sample points incl. faces and outside "
         "points, every component, list(field), 3 lines + one with fewer than 2 points (points, values, distances and the WHOLE "
         "data frame: column names in order and every column's content, also where a coordinate column is overwritten), a "
-        "history update_field_values(valid) / rejected assignment / array setter(original array) step by step and in one go "
-        "must EQUAL the rational model; 'init' label variants (12 %: wrong count, duplicates, attribute names, empty list, "
+        "history update_field_values(valid) OR array setter(valid, any specification incl. dictionaries) / rejected assignment / "
+        "array setter(original array) step by step and in one go must EQUAL the rational model; for a third of the cases a "
+        "SESSION of 4-7 statements over two field objects on one discretisation (same mesh object / equal mesh) and one or two "
+        "caller-owned arrays - assignments through setter / update_field_values / constructor from a field object, a field's "
+        ".array, a caller's array or a plain value, mixed with in-place writes into every array - after every statement the "
+        "arrays of ALL objects must equal the store model (and on the real code alone: a statement changes only the array it "
+        "addresses); 'kinds' (0/1-valued specifications of every form x value kind bool/int/float/complex x requested dtype or "
+        "none: dtype kind of the array stored by constructor / update_field_values / setter = model); 'init' label variants (12 %: wrong count, duplicates, attribute names, empty list, "
         "long names, a mesh dimension named like 'r' or a value column); 'malformed' (wrong shape / component count / type "
         "through constructor, update_field_values and the array setter: rejected and state unchanged; incl. ONE component "
         "for a vector field in every form - constant 1-tuple / 1-list, per-cell array (*n, 1) or (*n), source field with "
@@ -50,7 +56,9 @@ TRUSTED = ["harness/c02.py, harness/fieldio.py + driver JSON glue (Gaussian rati
            "NumPy broadcasting in np.full / slice assignment, xarray .sel(method='nearest') (nearest centre, ties to the "
            "larger index), pandas data frame columns: modelled by contract and exercised by the correspondence run",
            "Line 'r' column uses sqrt: compared squared",
-           "the attribute table of Field (dir(field)) is handed to the model as the list of names the vdims setter refuses"]
+           "the attribute table of Field (dir(field)) is handed to the model as the list of names the vdims setter refuses",
+           "driver glue of the session op (pokeobj / fillobj are resolved to the address the object holds at that moment) and of "
+           "the fast source-field path (fieldFastOk test, result handed on as a per-cell array)"]
 ASSUMPTIONS = ["values are representable in the requested dtype (integers for int, 0/1 for bool): dtype casting itself is NumPy's",
                "reading of 'wrong shape': NumPy cannot broadcast it to (*n, nvdim) or its last axis is not nvdim; arrays that "
                "NumPy broadcasts (e.g. shape (n_y, nvdim), or a non-zero scalar 'default' for nvdim > 1) are accepted by the code, "
@@ -64,17 +72,30 @@ ASSUMPTIONS = ["values are representable in the requested dtype (integers for in
                "(<= 1/3 or >= 3 times atol + rtol |x|), whose exact value is C01's subject",
                "a function returning None / a string for a SCALAR field is not in the default malformed stream (NumPy casts it: "
                "NaN / False / True are stored; flag VERIF_C02_NONE=1 turns the stream on)"]
-UNPROVED = ["dtype casting is NumPy's: the theorems hold for every value type because the model only moves values; that a value "
-            "given as a Python int / float / complex ends up in the requested dtype unchanged is the ASSUMPTION 'representable', "
-            "and the dtype the array gets when none is requested (max(value dtype, float64)) is not modelled",
+UNPROVED = ["dtype: WHICH KIND of array is stored (bool / int / float / complex) is modelled and proved for every form of specification "
+            "and a requested / not requested dtype (leafKind / specKind / updKind: kind_requested, kind_not_requested_update, "
+            "kind_setter_vs_update; 'kinds' stream: constructor, update_field_values and setter against the model). Outside the "
+            "model: the CASTING of the values (ASSUMPTION 'representable'; complex values given without dtype=complex to a function "
+            "or a dictionary lose their imaginary part or are refused by NumPy), dtypes other than those four kinds; that the "
+            "setter keeps a bool / int kind when no dtype is requested (cell-shaped array of a scalar field, source field) is "
+            "compared leniently: a library that widens to float there is not reported (tag setter-narrow-kind)",
             "the label check `hasattr(self, c)` of the vdims setter is modelled by a list of reserved names handed to the model "
             "(dir(field)); non-string labels (TypeError) are not modelled; Line.n / Line.dim and the renaming setters of Line are not modelled",
             "xarray's nearest-neighbour selection, NumPy broadcasting and pandas' column assignment (existing name: overwritten in "
-            "place, new name: appended) are modelled by contract; the frame's 'r' column is held squared (sqrt is NumPy's)",
-            "the theorems are about exact arithmetic (call_cell_contains: the sampled row is that of a cell containing the point): "
-            "that binary64 look-up returns that cell for points down to 2^-49 (|q|+1) cells from a face, at every length scale, "
-            "offset and mesh size, is established by the 'near' correspondence stream only; inside that band nothing is claimed. "
-            "Source fields with thousands of cells (model's nearest-centre scan is quadratic) are judged by the oracle alone",
+            "place, new name: appended) are modelled by contract; the frame's 'r' column is held squared (sqrt is NumPy's). "
+            "Ownership: in the store model every conversion allocates BY DEFINITION (no_aliasing_ever, field_value_is_copied are "
+            "invariants of that model); that the CODE allocates (np.full / np.array / xarray's indexing) is established by the "
+            "session stream (in-place writes after assignments, all arrays compared statement by statement), not by a theorem about NumPy",
+            "the theorems are about exact arithmetic (call_cell_contains / call_tolerance_clips: the sampled row is that of a cell "
+            "containing the point, or the boundary cell for a point the tolerance lets through): that binary64 look-up returns that "
+            "cell for points down to 2^-49 (|q|+1) cells from a face, at every length scale, offset and mesh size, is established "
+            "by the 'near' correspondence stream only; inside that band nothing is claimed. Source fields with thousands of cells "
+            "are converted by the driver with the closed formula of the source cell - proved equal to the code-shaped "
+            "nearest-centre scan (field_fast_path_equal), no longer oracle-only",
+            "acceptance equivalences (asArray_dict_ok_iff, assign_rejected_iff_malformed, new_ok_iff) are stated for nvdim >= 1 and "
+            "subregions that are unions of cells (AlignedSub: what Mesh guarantees, C14's subject); line_ok_iff keeps the clause "
+            "'every point of the line can be sampled': that it follows from the two end points alone (convexity of the "
+            "tolerance-widened box for a tolerance factor < 1) is not proved - line_accepts proves it for end points exactly in the region",
             "finding D42 (open) is proved as a NEGATIVE statement about the code-shaped model (lineData_clash_value_column, "
             "lineData_clash_r): no positive theorem can hold for clashing names until the code changes"]
 BUDGET = {"quick": 100, "thorough": 1200}
@@ -794,6 +815,9 @@ def gen_init(rng, tier, force_kind=None):
                 dtype_arg=(kind != "float" or rng.random() < 0.5),
                 spec=gen_spec(rng, kind, nv, ms, subs), spec2=gen_spec(rng, kind, nv, ms, subs),
                 bad=gen_bad_leaf(rng, kind, nv, ms), via=rng.choice(["update", "setter"]), sub=rng.getrandbits(32))
+    # the second assignment goes through update_field_values or through the array setter (any specification, also a
+    # dictionary: the setter dispatches like the constructor)
+    case["via2"] = rng.choice(["update", "update", "setter"])
     return case
 
 
@@ -863,7 +887,7 @@ def gen_malformed(rng, tier):
             spec = gen_dict(rng, kind, nv, ms, subs, default_mode="const")
             spec["default"] = dict(k="scalar", v=gen_num(rng, kind, nonzero=True))
     return dict(kind="malformed", mode=mode, mesh=ms, subs=subs, dtype=kind, nvdim=nv, vdims=None, dtype_arg=True,
-                spec=spec, via=rng.choice(["ctor", "update", "setter"]) if spec["k"] != "dict" else rng.choice(["ctor", "update"]),
+                spec=spec, via=rng.choice(["ctor", "update", "setter"]),
                 base=gen_leaf(rng, kind, nv, ms, [0] * len(n), list(n), allow_field=False), sub=rng.getrandbits(32))
 
 
@@ -992,6 +1016,8 @@ def cases(rng, tier):
             yield gen_tol(rng, tier, big=(k % 80 == 40))
         if k % 5 == 0:
             yield gen_near(rng, tier, big=(k % 50 == 25))
+        if k % 5 == 1:
+            yield gen_kinds(rng)
 
 
 def search(case, rng):
@@ -1367,12 +1393,237 @@ def tol_source(case, mesh, rng2):
     return df.Field(sm, nvdim=ts["nvdim"], value=arr, dtype=np_dtype(case["dtype"]))
 
 
+# --------------------------------------------------------------------------- sessions (ownership) and value kinds
+def gen_session_prog(rng, kind, nv, ms):
+    """a short program over two field objects on one discretisation and one array owned by the caller: assignments
+    through setter / update_field_values / constructor whose source is another field object, a field's .array, the
+    caller's array or a plain value, mixed with in-place writes into every array"""
+    n = list(ms["n"])
+    nobj, prog = 2, []
+
+    nbuf = 2 if nv == 1 else 1                              # scalar fields: a second caller array of the cells' shape `n`
+
+    def idx(b=0):
+        return [rng.randrange(k) for k in n] + ([rng.randrange(nv)] if b == 0 else [])
+
+    def src():
+        r = rng.random()
+        if r < 0.4:
+            return dict(obj=rng.randrange(nobj))
+        if r < 0.6:
+            return dict(objarr=rng.randrange(nobj))
+        if r < 0.8:
+            return dict(buf=rng.randrange(nbuf))
+        if r < 0.86:
+            return dict(leaf=dict(k="bad", what="str"))
+        return dict(leaf=gen_leaf(rng, kind, nv, ms, [0] * len(n), n, allow_field=False))
+
+    for _ in range(rng.randint(4, 7)):
+        r = rng.random()
+        if r < 0.45:
+            op = rng.choice(["set", "set", "upd", "upd", "new"])
+            if op == "new" and nobj >= 4:
+                op = "set"
+            prog.append(dict(op=op, i=rng.randrange(nobj), src=src()))
+            if op == "new":
+                nobj += 1                                   # (a rejected constructor adds no object: see run_session)
+        elif r < 0.7:
+            prog.append(dict(op="pokeobj", i=rng.randrange(nobj), j=idx(), v=gen_num(rng, kind)))
+        elif r < 0.8:
+            prog.append(dict(op="fillobj", i=rng.randrange(nobj), v=gen_num(rng, kind)))
+        elif r < 0.93:
+            b = rng.randrange(nbuf)
+            prog.append(dict(op="pokebuf", b=b, j=idx(b), v=gen_num(rng, kind)))
+        else:
+            prog.append(dict(op="fillbuf", b=rng.randrange(nbuf), v=gen_num(rng, kind)))
+    return prog
+
+
+def run_session(case, mesh, kind, nv, rng, fail, obs):
+    """runs a session program on real objects; after every statement the arrays of ALL objects and of the caller's array
+    are recorded (compared with the store model) and the ownership oracle is applied: a statement changes the array of
+    the object it addresses and nothing else"""
+    dt = np_dtype(kind)
+    shape = tuple(int(k) for k in mesh.n) + (nv,)
+    size = int(np.prod(shape))
+
+    def rnd_arr():
+        return np.array([num_py(gen_num(rng, kind), kind) for _ in range(size)], dtype=dt).reshape(shape)
+
+    same_obj = rng.random() < 0.5
+    gm = mesh if same_obj else df.Mesh(region=df.Region(p1=mesh.region.pmin, p2=mesh.region.pmax,
+                                                         dims=list(mesh.region.dims)), n=mesh.n)
+    vd = None if nv <= 3 else [f"c{i}" for i in range(nv)]
+    objs = [df.Field(mesh, nvdim=nv, value=rnd_arr(), dtype=dt, vdims=vd), df.Field(gm, nvdim=nv, value=rnd_arr(), dtype=dt, vdims=vd)]
+    bufs = [rnd_arr()]
+    if nv == 1:
+        bufs.append(rnd_arr()[..., 0].copy())
+    ms = dict(case["mesh"], n=[int(k) for k in mesh.n])
+    prog = gen_session_prog(rng, kind, nv, ms)
+    mjs = [obs["mesh_json"], fieldio.mesh_json(gm)]
+    sess = dict(fields=[vf_json(o, mj) for o, mj in zip(objs, mjs)],
+                bufs=[dict(shape=list(b.shape), data=arr_nums(b)) for b in bufs], prog=[], states=[])
+    dims = list(mesh.region.dims)
+    for c in prog:
+        c = dict(c)
+        if c["op"] in ("set", "upd", "new", "pokeobj", "fillobj") and c["i"] >= len(objs):
+            c["i"] = len(objs) - 1                              # an earlier constructor call was rejected
+        before = [o.array.copy() for o in objs] + [b.copy() for b in bufs]
+        target = None                                           # position in `before` of the one array allowed to change
+        if c["op"] in ("set", "upd", "new"):
+            sj = dict(c["src"])
+            if "obj" in sj:
+                sj["obj"] = min(sj["obj"], len(objs) - 1)
+                val = objs[sj["obj"]]
+            elif "objarr" in sj:
+                sj["objarr"] = min(sj["objarr"], len(objs) - 1)
+                val = objs[sj["objarr"]].array
+            elif "buf" in sj:
+                val = bufs[sj["buf"]]
+            else:
+                built = {}
+                val = build_leaf(sj["leaf"], kind, dims, built)
+                sj = dict(spec=leaf_json(sj["leaf"], built))
+            c["src"] = sj
+            o = objs[c["i"]]
+            if c["op"] == "set":
+                st, e = _err(lambda: setattr(o, "array", val))
+                target = c["i"]
+            elif c["op"] == "upd":
+                st, e = _err(lambda: o.update_field_values(val))
+                target = c["i"]
+            else:
+                st, e = _err(lambda: df.Field(o.mesh, nvdim=nv, value=val, dtype=dt, vdims=o.vdims))
+                if st == "ok":
+                    objs.append(e)
+                    mjs.append(mjs[c["i"]])
+            if st != "ok":
+                target = None
+        elif c["op"] == "pokeobj":
+            st, e = _err(lambda: objs[c["i"]].array.__setitem__(tuple(c["j"]), num_py(c["v"], kind)))
+            target = c["i"]
+        elif c["op"] == "fillobj":
+            st, e = _err(lambda: objs[c["i"]].array.__setitem__(Ellipsis, num_py(c["v"], kind)))
+            target = c["i"]
+        elif c["op"] == "pokebuf":
+            st, e = _err(lambda: bufs[c["b"]].__setitem__(tuple(c["j"]), num_py(c["v"], kind)))
+            target = len(objs) + c["b"]
+        else:
+            st, e = _err(lambda: bufs[c["b"]].__setitem__(Ellipsis, num_py(c["v"], kind)))
+            target = len(objs) + c["b"]
+        if "v" in c:
+            c["v"] = num_j(num_c(c["v"]))
+        sess["prog"].append(c)
+        nb = len(before) - len(bufs)                            # number of objects before the statement
+        after = [o.array for o in objs[:nb]] + list(bufs)
+        for k, (x, y) in enumerate(zip(before, after)):
+            if k != target and not (x.shape == y.shape and np.array_equal(x, y)):
+                who = f"field object {k}" if k < nb else "the caller's array"
+                fail(f"session statement {c['op']} (target {'object ' + str(c.get('i')) if 'i' in c else 'caller array'}) changed "
+                     f"the array of {who}: arrays are shared between objects")
+        sess["states"].append(dict(accepted=(st == "ok"), objs=[dict(shape=list(o.array.shape), data=arr_nums(o.array)) for o in objs],
+                                   bufs=[dict(shape=list(b.shape), data=arr_nums(b)) for b in bufs]))
+        obs["tags"].append(f"session:{c['op']}" + (":" + next(iter(c["src"])) if "src" in c else "") + ":" + st)
+    obs["session"] = sess
+
+
+KIND_CHAR = {"b": "bool", "i": "int", "u": "int", "f": "float", "c": "complex"}
+KINDS4 = ["bool", "int", "float", "complex"]
+
+
+def gen_kinds(rng):
+    """which dtype the stored array gets: value kind x requested dtype (or none) x form of the specification x path"""
+    ndim = rng.choice([1, 2, 2, 3])
+    n = [rng.randint(1, 3) for _ in range(ndim)]
+    ms = dict(p1=[0.0] * ndim, p2=[float(k) for k in n], n=n, dims=None, bc="")
+    subs = gen_subs(rng, n, rng.choice([0, 1, 2]))
+    nv = rng.choice([1, 1, 2, 3])
+    vk = rng.choice(KINDS4)
+    form = rng.choice(["scalar", "vec", "arr", "arrcell", "poly", "dict", "field"])
+    req = rng.choice([None, None, None] + KINDS4)
+    if vk == "complex" and req in ("bool", "int", "float"):
+        # complex values for a real dtype are outside the ASSUMPTION 'representable': NumPy casts complex ARRAYS with a
+        # warning but refuses a sequence of Python complex numbers (np.array((1+0j,), dtype=float) raises TypeError)
+        req = rng.choice([None, "complex"])
+    if vk == "complex" and form == "dict":
+        req = "complex"                                      # "dtype must be specified by the user for complex values"
+    one = lambda: str(rng.randint(0, 1))
+    cells = int(np.prod(n))
+    if form == "scalar":
+        spec = dict(k="scalar", v=(one() if nv == 1 else "0"))
+    elif form == "vec":
+        spec = dict(k="vec", v=[one() for _ in range(nv)], **{"as": rng.choice(["tuple", "list"])})
+    elif form == "arrcell" and nv == 1:
+        spec = dict(k="arr", shape=list(n), data=[one() for _ in range(cells)])
+    elif form in ("arr", "arrcell"):
+        spec = dict(k="arr", shape=list(n) + [nv], data=[one() for _ in range(cells * nv)])
+    elif form == "poly":
+        spec = dict(k="poly", comps=[[dict(c=one(), e=[0] * ndim)] for _ in range(nv)], style=rng.choice(["tuple", "list", "array"]))
+    elif form == "dict":
+        items = [[name, (dict(k="scalar", v=(one() if nv == 1 else "0")) if rng.random() < 0.5 else
+                         dict(k="vec", v=[one() for _ in range(nv)]))] for name, k1, k2 in subs if rng.random() < 0.8]
+        dm = rng.choice(["const", "poly", "field"])
+        if dm == "const":
+            dflt = dict(k="vec", v=[one() for _ in range(nv)]) if nv > 1 or n != [1] else dict(k="scalar", v=one())
+        elif dm == "poly":
+            dflt = dict(k="poly", comps=[[dict(c=one(), e=[0] * ndim)] for _ in range(nv)])
+        else:
+            dflt = dict(k="field", src=dict(p1=ms["p1"], p2=ms["p2"], n=list(n), nvdim=nv, data=[one() for _ in range(cells * nv)]))
+        spec = dict(k="dict", items=items, default=dflt)
+    else:
+        spec = dict(k="field", src=dict(p1=ms["p1"], p2=ms["p2"], n=list(n), nvdim=nv, data=[one() for _ in range(cells * nv)]))
+    return dict(kind="kinds", mesh=ms, subs=subs, dtype=vk, req=req, nvdim=nv, vdims=None, spec=spec, sub=rng.getrandbits(32))
+
+
+def run_kinds(case, obs):
+    vk, req, nv = case["dtype"], case["req"], case["nvdim"]
+    obs["tags"] += [f"valuekind:{vk}", f"requested:{req}", "form:" + case["spec"]["k"]]
+    st, mesh = _err(lambda: build_mesh(case["mesh"], case["subs"]))
+    if st != "ok":
+        obs["skip"] = True
+        return obs
+    obs["mesh_json"] = fieldio.mesh_json(mesh)
+    dims = list(mesh.region.dims)
+    built = {}
+    value = build_value(case["spec"], vk, dims, built)
+    obs["spec_json"] = spec_json(case["spec"], built)
+    kw = {} if req is None else {"dtype": np_dtype(req)}
+    out = {}
+    with warnings.catch_warnings():
+        warnings.simplefilter("ignore")                       # complex -> real casts warn (values have no imaginary part)
+        for path in ("ctor", "upd", "set"):
+            if path == "ctor":
+                st, f = _err(lambda: df.Field(mesh, nvdim=nv, value=value, **kw))
+            else:
+                f = df.Field(mesh, nvdim=nv, **kw)
+                if path == "upd":
+                    st, e = _err(lambda: f.update_field_values(value))
+                else:
+                    st, e = _err(lambda: setattr(f, "array", value))
+            out[path] = KIND_CHAR.get(f.array.dtype.kind, f.array.dtype.kind) if st == "ok" else "err"
+            obs["tags"].append(f"kind:{path}:{out[path]}")
+            if st != "ok":
+                obs["oracle"].append(f"well-formed 0/1-valued specification rejected ({path}, dtype={req}, value kind {vk}): "
+                                     f"{describe(case['spec'])}")
+    obs["kinds"] = out
+    if req is None and vk in ("bool", "int") and out["set"] != "err" and out["upd"] != "err":
+        narrow = (case["spec"]["k"] == "field" or
+                  (case["spec"]["k"] in ("arr", "vec") and nv == 1 and
+                   list(case["spec"].get("shape", [len(case["spec"].get("v", []))])) == [int(q) for q in mesh.n]))
+        if narrow:
+            obs["tags"].append("setter-narrow-kind:" + ("as-model" if out["set"] == vk else "widened"))
+    obs["nontrivial"] = req is None or req != vk
+    return obs
+
+
 def run_impl(case):
     rng = random.Random(case["sub"])
     kind, nv = case["dtype"], case["nvdim"]
     obs = {"oracle": [], "tags": [f"kind:{case['kind']}", f"dtype:{kind}", f"nvdim:{nv}", f"ndim:{len(case['mesh']['n'])}",
                                   f"subs:{len(case['subs'])}"]}
     fail = obs["oracle"].append
+    if case["kind"] == "kinds":
+        return run_kinds(case, obs)
     exact = case["kind"] not in ("tol", "near")
     st, mesh = _err(lambda: build_mesh(case["mesh"], case["subs"]) if exact else None)
     if not exact:
@@ -1483,16 +1734,21 @@ def run_impl(case):
     val2 = spec_validity(case["spec2"], kind, nv, mesh, built2)
     obs["spec2_json"] = spec_json(case["spec2"], built2)
     snap = f.array.copy()
-    st2, e2 = _err(lambda: f.update_field_values(v2))
+    via2 = case.get("via2", "update")
+    obs["tags"].append("second-assignment:" + via2 + ":" + case["spec2"]["k"])
+    if via2 == "setter":
+        st2, e2 = _err(lambda: setattr(f, "array", v2))
+    else:
+        st2, e2 = _err(lambda: f.update_field_values(v2))
     obs["st2"] = st2
     obs["after2"] = vf_json(f, obs["mesh_json"])
     if st2 == "ok":
         check_array(case["spec2"], kind, nv, mesh, f, built2, True, scale, fail)
     else:
         if val2 == "valid":
-            fail(f"well-formed specification rejected by update_field_values ({e2}): {describe(case['spec2'])}")
+            fail(f"well-formed specification rejected by {'the array setter' if via2 == 'setter' else 'update_field_values'} ({e2}): {describe(case['spec2'])}")
         if not np.array_equal(f.array, snap):
-            fail("rejected update_field_values changed the field")
+            fail(f"rejected {'array setter' if via2 == 'setter' else 'update_field_values'} changed the field")
     built3 = {}
     v3 = build_leaf(case["bad"], kind, dims, built3)
     obs["bad_json"] = leaf_json(case["bad"], built3)
@@ -1552,6 +1808,10 @@ def run_impl(case):
             h.array[...] = h.array * 2 + 1
             if not np.array_equal(g.array, want):
                 fail(f"after assigning a source field on the same mesh ({via5}), changing the TARGET in place changed the source")
+    # ---- sixth step: a session of field objects and a caller-owned array on this mesh (ownership: compared with the
+    # store model statement by statement)
+    if len(mesh) * nv <= 96 and case["sub"] % 3 == 0:
+        run_session(case, mesh, kind, nv, rng, fail, obs)
     return obs
 
 
@@ -1583,19 +1843,24 @@ def model_requests(case, obs):
     if obs.get("skip") or "mesh_json" not in obs:
         return []
     mj, nv = obs["mesh_json"], case["nvdim"]
-    if case.get("big") and case["spec"]["k"] == "field":
-        # the model's nearest-centre scan is quadratic in the source size: a source field with thousands of cells is
-        # judged by the oracle on the real code alone (containing-cell test for every target cell)
-        return []
-    return _model_requests(case, obs, mj, nv)
+    reqs = _model_requests(case, obs, mj, nv)
+    if case.get("big") and case["spec"]["k"] == "field" and reqs and reqs[0].get("op") == "new":
+        # the model's nearest-centre scan is quadratic in the source size: for a source field with thousands of cells the
+        # driver computes the source cell by its closed formula (theorem field_fast_path_equal: same result)
+        reqs[0]["fast"] = True
+    return reqs
 
 
 def _model_requests(case, obs, mj, nv):
+    if case["kind"] == "kinds":
+        return [dict(op="kinds", mesh=mj, nvdim=nv, spec=obs["spec_json"], vk=case["dtype"], dtype=case["req"])]
     if case["kind"] == "malformed" and case["via"] != "ctor":
         if obs["before"]["data"] is None:
             return []
         if case["via"] == "update":
             return [dict(op="update", field=obs["before"], spec=obs["spec_json"])]
+        if obs["spec_json"]["k"] == "dict":
+            return [dict(op="set_spec", field=obs["before"], spec=obs["spec_json"])]
         return [dict(op="set_array", field=obs["before"], leaf=obs["spec_json"])]
     reqs = [dict(op="new", mesh=mj, nvdim=nv, spec=obs["spec_json"],
                  vdims=(list(case["vdims"]) if case.get("vdims") is not None else None), reserved=reserved_names())]
@@ -1606,7 +1871,8 @@ def _model_requests(case, obs, mj, nv):
                      comps=[c["label"] for c in pr["comps"]], iter=True,
                      lines=[dict(p1=l["p1"], p2=l["p2"], n=l["n"]) for l in pr["lines"]]))
     if case["kind"] == "init":
-        reqs.append(dict(op="update", field=obs["field"], spec=obs["spec2_json"]))
+        via2 = case.get("via2", "update")
+        reqs.append(dict(op=("set_spec" if via2 == "setter" else "update"), field=obs["field"], spec=obs["spec2_json"]))
         if obs["after2"]["data"] is not None:
             if case["via"] == "update":
                 reqs.append(dict(op="update", field=obs["after2"], spec=obs["bad_json"]))
@@ -1615,9 +1881,13 @@ def _model_requests(case, obs, mj, nv):
             if "after4" in obs and obs["after4"]["data"] is not None:
                 # the whole history in one go: accepted update, rejected assignment, accepted setter
                 reqs.append(dict(op="history", field=obs["field"], ops=[
-                    dict(upd=obs["spec2_json"]),
+                    (dict(sets=obs["spec2_json"]) if via2 == "setter" else dict(upd=obs["spec2_json"])),
                     (dict(upd=obs["bad_json"]) if case["via"] == "update" else dict(set=obs["bad_json"])),
                     dict(set=dict(k="arr", shape=obs["array"]["shape"], data=obs["array"]["data"]))]))
+    if "session" in obs:
+        ss = obs["session"]
+        if all(f["data"] is not None for f in ss["fields"]):
+            reqs.append(dict(op="session", fields=ss["fields"], bufs=ss["bufs"], prog=ss["prog"]))
     return reqs
 
 
@@ -1659,6 +1929,17 @@ def compare(case, obs, rs):
     if not rs:
         return dis
     exact = case["kind"] not in ("tol", "near")
+    if case["kind"] == "kinds":
+        k = obs["kinds"]
+        # the setter's single conversion keeps a bool / int kind when no dtype is requested (cell-shaped array of a scalar
+        # field, source field): no property pins that quirk, so a library that widens to the kind of the two-pass paths
+        # there is not reported (tags setter-narrow-kind:as-model / :widened show what the tree under test does)
+        set_ok = k["set"] == rs[0]["set"] or (case["req"] is None and rs[0]["set"] in ("bool", "int") and k["set"] == rs[0]["upd"])
+        if k["ctor"] != rs[0]["upd"] or k["upd"] != rs[0]["upd"] or not set_ok:
+            dis.append(f"dtype of the stored array (value kind {case['dtype']}, requested {case['req']}, {describe(case['spec'])}): "
+                       f"impl constructor {k['ctor']} / update_field_values {k['upd']} / setter {k['set']} vs model "
+                       f"{rs[0]['upd']} / {rs[0]['upd']} / {rs[0]['set']}")
+        return dis
     if case["kind"] == "malformed" and case["via"] != "ctor":
         cmp_after(f"{case['via']}({describe(case['spec'])})", obs["st"], obs["after"], rs[0], dis)
         return dis
@@ -1732,12 +2013,31 @@ def compare(case, obs, rs):
                     dis.append(f"{name} r[{j}]: impl {float(rr)} squared vs model r^2 {b}")
                     break
     if case["kind"] == "init" and len(rs) > 2:
-        cmp_after(f"update_field_values({describe(case['spec2'])})", obs["st2"], obs["after2"], rs[2], dis)
+        cmp_after(f"{'array setter' if case.get('via2') == 'setter' else 'update_field_values'}({describe(case['spec2'])})",
+                  obs["st2"], obs["after2"], rs[2], dis)
         if len(rs) > 3:
             cmp_after(f"{case['via']}({describe(case['bad'])})", obs["st3"], obs["after3"], rs[3], dis)
         if len(rs) > 4 and "after4" in obs:
             cmp_array("state after the history update / rejected assignment / setter",
                       dict(shape=obs["after4"]["shape"], data=obs["after4"]["data"]), rs[4]["state"], True, dis)
+    if "session" in obs and rs and "states" in rs[-1]:
+        ss = obs["session"]
+        for k, (a, b) in enumerate(zip(ss["states"], rs[-1]["states"])):
+            name = f"session statement {k} {ss['prog'][k]}"
+            if a["accepted"] != b["accepted"]:
+                dis.append(f"{name}: impl {'accepted' if a['accepted'] else 'rejected'} vs model "
+                           f"{'accepted' if b['accepted'] else 'rejected'}")
+                break
+            if len(a["objs"]) != len(b["objs"]):
+                dis.append(f"{name}: {len(a['objs'])} field objects vs model {len(b['objs'])}")
+                break
+            n0 = len(dis)
+            for q, (x, y) in enumerate(zip(a["objs"], b["objs"])):
+                cmp_array(f"{name}: array of field object {q}", x, y, True, dis)
+            for q, (x, y) in enumerate(zip(a["bufs"], b["bufs"])):
+                cmp_array(f"{name}: the caller's array {q}", x, y, True, dis)
+            if len(dis) > n0:
+                break
     return dis
 
 
